@@ -1555,7 +1555,16 @@ func c10RunConfig(c *Ctx, g *c10Cfg, nLists int) {
 	if g.DSE {
 		dseVersion = c10DSEVersion
 	}
-	cluster, err := fakecass.New(fakecass.Config{Hosts: 1, DSEVersion: dseVersion, DC: c10Backend.DC, Log: mon.NewLog(false)})
+	// every other configuration runs against a backend of two data centers whose contact node answers system.local a little
+	// later than system.peers: the backend-derived data center is the contact node's own, not that of a peer
+	fcfg := fakecass.Config{Hosts: 1, DSEVersion: dseVersion, DC: c10Backend.DC, Log: mon.NewLog(false)}
+	if g.Idx%2 == 1 {
+		fcfg.Hosts = 2
+		fcfg.HostDCs = map[int]string{2: "remote_dc_of_a_peer"}
+		fcfg.SlowLocal = 15 * time.Millisecond
+		r.Obs("cfg:backend-with-two-data-centers", 1)
+	}
+	cluster, err := fakecass.New(fcfg)
 	if err != nil {
 		r.Inconc(fmt.Sprintf("cfg %d: cannot start backend: %v", g.Idx, err))
 		return
